@@ -441,6 +441,18 @@ def _pair_path(ep, segs, D, reach=None):
                  % ([s for s in segs if s.kind == 'other'][:1],))]
     for s in segs:
         if s.kind == 'utf8':
+            of_ = getattr(s, 'of', None)
+            while isinstance(of_, Sym) and of_.op == 'typed' and of_.args:
+                of_ = of_.args[0]
+            p_ = ep.P
+            while isinstance(p_, Sym) and p_.op == 'typed' and p_.args:
+                p_ = p_.args[0]
+            res.append(('text', of_ is p_,
+                        'the text written is the argument itself'
+                        if of_ is p_ else
+                        'the text written is %s, not the argument: what '
+                        'comes back differs from what was passed (in value '
+                        'or type)' % T.show(getattr(s, 'of', None))[:100]))
             dec_err = set()
             other = set()
             for dp in D.paths:
